@@ -336,8 +336,10 @@ def user_kw(x, *, offset=0):
 
 
 class Tick:
-    """Impure-looking constant: the n-th call adds the symbol tick<n>. A value computed once carries one
-    tick; if generated code evaluated a shared node twice the two uses would carry different ticks."""
+    """Counting constant: adds the symbol `tick` and counts its calls. The graph interpreter evaluates every
+    application node once (per invocation of its enclosing function); generated code that evaluated a shared node
+    twice calls it more often. (The value does NOT depend on the call number: the order in which independent
+    applications are evaluated is not fixed by the graph, only their number is.)"""
 
     def __init__(self):
         self.n = 0
@@ -348,9 +350,8 @@ class Tick:
     def __call__(self, x):
         import z3
 
-        t = z3.Int(f"tick{self.n}")
         self.n += 1
-        return x + t
+        return x + z3.Int("tick")
 
     def __repr__(self):
         return "Tick()"
